@@ -80,15 +80,30 @@ func TestVerifC06_ProcHeaderTailReload(t *testing.T) {
 	rapid.Check(t, func(t *rapid.T) {
 		nh := rapid.SampledFrom([]int{0, 1, 2, 3}).Draw(t, "headerLines")
 		tail := rapid.SampledFrom([]int{0, 0, 2, 5, 130}).Draw(t, "tail")
+		read0 := rapid.IntRange(0, 2).Draw(t, "read0") == 0
+		sep := "\n"
+		if read0 {
+			sep = "\x00"
+		}
 		mk := func(prefix string, n int) []string {
 			out := make([]string, n)
 			for i := range out {
 				out[i] = fmt.Sprintf("%s%d", prefix, i)
+				switch {
+				case i%4 == 1:
+					// non-ASCII and wider than the window: what is drawn is a truncated rendition
+					out[i] += " " + strings.Repeat(fmt.Sprintf("élément%02d-", i%100), 9)
+				case i%4 == 2 && read0:
+					out[i] += "\nsecond line of the record é\n\tthird"
+				}
 			}
 			return out
 		}
 		inputs := [][]string{mk("a", rapid.SampledFrom([]int{0, 1, 4, 9, 150, 260}).Draw(t, "nA")), mk("b", rapid.SampledFrom([]int{0, 2, 5, 9, 150}).Draw(t, "nB")), mk("c", rapid.SampledFrom([]int{3, 7, 120}).Draw(t, "nC"))}
 		args := []string{"--no-mouse", "--no-sort"}
+		if read0 {
+			args = append(args, "--read0")
+		}
 		if nh > 0 {
 			args = append(args, fmt.Sprintf("--header-lines=%d", nh))
 		}
@@ -99,7 +114,7 @@ func TestVerifC06_ProcHeaderTailReload(t *testing.T) {
 			if len(l) == 0 {
 				return nil
 			}
-			return []byte(strings.Join(l, "\n") + "\n")
+			return []byte(strings.Join(l, sep) + sep)
 		}
 		s := StartSession(t, SessionCfg{Args: args, Input: join(inputs[0]), Width: 60, Height: 12})
 		defer s.Close()
@@ -151,6 +166,8 @@ func TestVerifC06_ProcHeaderTailReload(t *testing.T) {
 			}
 		}
 		expect(inputs[0], "start")
+		time.Sleep(120 * time.Millisecond)
+		expect(inputs[0], "start, after the list has been drawn")
 		steps := rapid.IntRange(1, 5).Draw(t, "steps")
 		for i := 0; i < steps; i++ {
 			k := rapid.IntRange(0, len(inputs)-1).Draw(t, "which")
@@ -161,6 +178,13 @@ func TestVerifC06_ProcHeaderTailReload(t *testing.T) {
 				t.Fatalf("POST %s answered %d %v", body, code, err)
 			}
 			expect(inputs[k], "after "+body)
+			// ... and still after the list has been drawn
+			if rapid.Bool().Draw(t, "lookAgain") {
+				s.Post(rapid.SampledFrom([]string{"down", "page-up", "last", "toggle-wrap"}).Draw(t, "redraw"))
+				time.Sleep(120 * time.Millisecond)
+				s.Post("toggle-wrap+toggle-wrap")
+				expect(inputs[k], "after "+body+" and a redraw")
+			}
 		}
 		vstat.Case("C06/proc-header-tail-reload", strings.Join(history, "|"), nh > 0 || tail > 0, fmt.Sprintf("header=%d", nh), fmt.Sprintf("tail=%d", tail))
 	})
